@@ -98,6 +98,9 @@ func (fr *Frame) call(in ssa.Instruction, c *ssa.CallCommon, st *State, g string
 		fc.assumes["trusted model: math.Abs(x) == |x| (exact on finite float64)"] = true
 		return []SV{{t: fc.define(fr.prefix+"fabs", "Real", ite(app(">=", args[0].t, "0.0"), args[0].t, app("-", args[0].t))), typ: sig.Results().At(0).Type()}}
 	}
+	if res, ok := fr.mathPowConst(key, c); ok && spec == nil { // ext_float.go: math.Pow of constants
+		return res
+	}
 	if key == badgerPkgPath+".DB).Update" || key == badgerPkgPath+".DB).View" {
 		if res, ok := fr.badgerRunModel(key, c, st, g, pos); ok {
 			return res
@@ -317,11 +320,15 @@ func (fr *Frame) applySpecClosure(spec *FuncSpec, key string, sig *types.Signatu
 		} else if ob, prop := fr.panicPropagation(t); prop {
 			// caller documents its own panics: the callee's panic must fall under them (ext_panicprop.go)
 			fc.oblige(fr, "panic-spec", fmt.Sprintf("%s:%d", key, i), g, ob, pos, "callee panics when "+cl.Text+": only under the caller's documented panic condition", fr.props())
+		} else if np := fr.rootNoPanic(); np != "" {
+			// ext_nopanic.go: the caller propagates the callee's documented panic, except under its own `nopanic when` condition
+			fc.oblige(fr, "nopanic", fmt.Sprintf("%s:%d", key, i), g, implies(np, not(t)), pos, "under the `nopanic when` condition the callee does not panic: !("+cl.Text+")", fr.props())
 		} else {
 			fc.oblige(fr, "pre", fmt.Sprintf("%s:nopanic%d", key, i), g, not(t), pos, "callee panics when "+cl.Text, fr.props())
 		}
 		fc.assume(g, not(t))
 	}
+	fr.calleeNoPanic(spec, key, env, g, pos) // ext_nopanic.go
 	old := st.clone()
 	// frame
 	if !spec.HasMod && !spec.Trusted && !spec.Assume {
